@@ -339,34 +339,8 @@ def mask_dc(mval, ival):
   return mval, ival
 
 
-class Unformable(Exception):
-  pass
-
-
-def model_build(v, memo, flags):
-  """The C01 sentence, executed: direct calls, children first, one per node."""
-  k = id(v)
-  if k in memo:
-    return memo[k][1]
-  if isinstance(v, M.MNode):
-    args, kwargs, gap, unformable = v.call_args()
-    if gap:
-      flags['gap_default'] = True
-    if unformable:
-      raise Unformable()
-    args = [model_build(a, memo, flags) for a in args]
-    kwargs = {n: model_build(a, memo, flags) for n, a in kwargs.items()}
-    out = v.fn(*args, **kwargs)
-  elif isinstance(v, list):
-    out = [model_build(e, memo, flags) for e in v]
-  elif isinstance(v, tuple):
-    out = tuple(model_build(e, memo, flags) for e in v)
-  elif isinstance(v, dict):
-    out = {kk: model_build(e, memo, flags) for kk, e in v.items()}
-  else:
-    return v
-  memo[k] = (v, out)
-  return out
+Unformable = M.Unformable
+model_build = M.model_build
 
 
 def shape(m: M.MNode):
